@@ -29,8 +29,28 @@ def check(chk):
     inits = [n for n in upd if isinstance(n, ast.Assign)]
     augs = [n for n in upd if isinstance(n, ast.AugAssign)]
     chk.judge(len(inits) == 1 and src(inits[0].value) == 'True', 'C35.static', dn, 'static_only starts True', 'static_only initial value changed')
-    if len(augs) < 2:
+    if len(augs) < 1:
         raise AnalysisError('_delete_null_columns: static_only updates not found')
+    # every column added to the DELETE takes part in the flag: between ds.add_field(...) and the next iteration the flag is and-ed with col.static
+    gdn = CFG(dn)
+    adds_ = [n for n in gdn.stmt_nodes() if n.kind == 'stmt' and any(isinstance(c, ast.Call) and src(c.func) == 'ds.add_field' for c in ast.walk(n.ast))]
+    if not adds_:
+        raise AnalysisError('_delete_null_columns: ds.add_field not found')
+    for a_ in adds_:
+        seen_, work_, escaped = set(), [x for x, l_ in a_.succ if not (l_ and l_[0] == 'exc')], False
+        while work_:
+            n_ = work_.pop()
+            if n_.id in seen_:
+                continue
+            seen_.add(n_.id)
+            if n_.kind == 'stmt' and n_.ast in augs:
+                continue
+            if n_.kind in ('for_iter', 'exit'):
+                escaped = True
+                break
+            work_.extend(x for x, l_ in n_.succ if not (l_ and l_[0] == 'exc'))
+        chk.judge(not escaped, 'C35.static', a_.ast, '%s is followed by static_only &= col.static' % src(a_.ast).strip()[:50],
+                  'a column is added to the DELETE on an arm that does not update static_only: a non-static column deleted there leaves the flag True and the clustering key out of WHERE')
     for a in augs:
         chk.judge(isinstance(a.op, ast.BitAnd) and src(a.value) == 'col.static', 'C35.static', a, '%s: static_only &= col.static' % src(a),
                   'this arm updates the flag with %s: after a non-static column was seen the flag can turn True again, so the DELETE is restricted by the partition key only and '
